@@ -77,6 +77,7 @@ type vckWorld struct {
 	accts                []asserts.Assertion
 	dbs                  map[string]*asserts.Database
 	base                 map[string][]byte
+	stackKeys            map[string]asserts.Assertion // zz_verif_assertstack_test.go
 	seed                 int
 	since                int
 	nDecode, nCheck, nDB int
